@@ -74,6 +74,7 @@ func main() {
 			continue
 		}
 		d, m, g := eng.BuildFrozen(*seed, c, &pf, o, 120+c%80)
+		eng.CompGuard = false
 		d.Guard = false // the driver's argument builders are used from many goroutines below: no shared bookkeeping
 		res.Cases++
 		var msgs []string
